@@ -27,10 +27,14 @@ FLOORS = {"needs-renaming": 0.3}
 @st.composite
 def cases(draw, tier="quick"):
     keys = draw(gen.key_universe(POOLS, min_size=2, max_size=12, allow_digit_first=True))
+    for k in draw(gen.composed_keys()):
+        if gen.fold(k) not in {gen.fold(x) for x in keys} and not gen.class_name_collision(keys + [k]):
+            keys.append(k)
     kinds = []
     for k in keys:
         digit = gen.label_of(k, True)[:1].isdigit() or gen.label_of(k, False)[:1].isdigit()
-        kinds.append(draw(st.sampled_from(["int", "str", "null", "list", "intstr", "boolstr"] if digit else
+        # digit-first keys may hold objects too since F20 / F22 (class names get a capitalised digit word)
+        kinds.append(draw(st.sampled_from(["int", "str", "null", "list", "intstr", "boolstr", "obj"] if digit else
                                           ["int", "str", "null", "list", "obj", "obj", "objlist", "intstr", "floatstr", "boolstr"])))
     opts = {"fw": draw(st.sampled_from(gen.FRAMEWORKS)), "unicode": draw(st.booleans()), "meta": draw(st.booleans()),
             "nested": draw(st.booleans()), "pic": draw(st.booleans())}
@@ -76,7 +80,7 @@ def valid(case):
             if gen.key_status(k, allow_digit_first=True) is not None:
                 return False
             digit = gen.label_of(k, True)[:1].isdigit() or gen.label_of(k, False)[:1].isdigit()
-            if kind not in ("int", "str", "null", "list", "obj", "objlist", "intstr", "floatstr", "boolstr") or (digit and kind in ("obj", "objlist")):
+            if kind not in ("int", "str", "null", "list", "obj", "objlist", "intstr", "floatstr", "boolstr") or (digit and kind == "objlist"):
                 return False
         if not case["opts"].get("unicode", True) and any(gen.nfkc_unstable(k) or k in gen.CASELESS_KEYS for k in keys):
             return False
